@@ -15,11 +15,20 @@ def run(ctx):
     ctx.assumptions += ["a filed variant object is re-added only to its own container or below itself (scope of the statement)",
                         "get_variants: only the clauses of the statement are checked (no duplicates, UID order, arch/type "
                         "membership, no filter = everything); which filtered sub-trees recursion enters is left open"]
-    r = ctx.tlc("MC_Forest", "MC_Forest.cfg", must_cover=["Next"])
-    ctx.require_ok(r)
+    import concurrent.futures
     base = open(core.os.path.join(core.SPEC_DIR, "MC_Forest.cfg")).read()
-    for dev, invs in DEVS:
-        r = ctx.tlc("MC_Forest", cfg_text=base.replace(dev + " = FALSE", dev + " = TRUE"), expect_error=True, count=False)
+
+    def mc(job):
+        dev, invs = job
+        if dev is None:
+            return job, ctx.tlc("MC_Forest", "MC_Forest.cfg", must_cover=["Next"], workers=4)
+        return job, ctx.tlc("MC_Forest", cfg_text=base.replace(dev + " = FALSE", dev + " = TRUE"), expect_error=True, count=False, workers=3)
+    with concurrent.futures.ThreadPoolExecutor(max_workers=5) as ex:
+        results = list(ex.map(mc, [(None, None)] + DEVS))
+    for (dev, invs), r in results:
+        if dev is None:
+            ctx.require_ok(r)
+            continue
         if r.violated not in invs:
             raise core.MachineryError("deviation %s should violate one of %s, TLC says violated=%s ok=%s"
                                       % (dev, invs, r.violated, r.ok))
@@ -71,12 +80,28 @@ def validate_traces(ctx):
         trs, objs = _prep(data)
         if not trs:
             raise core.MachineryError("no recorded forest traces from %s" % source)
-        verdicts = T.validate_batch(ctx, "Trace_Forest", "Trace_Forest.cfg", trs, extra={"objs": objs})
-        inv = verdicts.pop("__invariant__", None)
-        if inv:
-            t = trs[inv[2] - 1] if inv[2] else None
-            ctx.fail({"source": source, "meta": meta, "trace": t, "objs": {k: objs[k] for e in (t or {"events": []})["events"] for k in (e["c"], e["o"]) if k in objs},
-                      "tlc": inv[3]}, "recorded execution reaches a forest violating %s" % inv[1], "trace")
+        # the state of the trace spec holds one children table per object of the batch: validate in small batches
+        # (own object universe each), several TLC processes side by side
+        import concurrent.futures
+        groups = [trs[i:i + 6] for i in range(0, len(trs), 6)]
+
+        def one(group):
+            used = set(x for t in group for e in t["events"] for x in (e["c"], e["o"], e["par"])) - set(["ROOT", "None"])
+            return group, T.validate_batch(ctx, "Trace_Forest", "Trace_Forest.cfg", group, extra={"objs": {k: objs[k] for k in used}})
+        verdicts = {}
+        with concurrent.futures.ThreadPoolExecutor(max_workers=core.NCPU) as ex:
+            results = list(ex.map(one, groups))
+        bad_inv = False
+        for group, v in results:
+            inv = v.pop("__invariant__", None)
+            if inv:
+                t = group[inv[2] - 1] if inv[2] else None
+                ctx.fail({"source": source, "meta": meta, "trace": t,
+                          "objs": {k: objs[k] for e in (t or {"events": []})["events"] for k in (e["c"], e["o"]) if k in objs},
+                          "tlc": inv[3]}, "recorded execution reaches a forest violating %s" % inv[1], "trace")
+                bad_inv = True
+            verdicts.update(v)
+        if bad_inv:
             continue
         by = {t["tid"]: t for t in trs}
         for tid, (v, at) in verdicts.items():
